@@ -463,6 +463,9 @@ func TestCheck(t *testing.T) {
 		return true
 	}
 	if cfg.Replay != "" {
+		if rec.ReplayFuzzRapid(t, cfg.Replay, fuzzProps) {
+			return
+		}
 		var c Case
 		if _, err := run.LoadReplay(cfg.Replay, &c); err != nil {
 			t.Fatal(err)
